@@ -662,3 +662,43 @@ Definition mp_step (st : headers * sdict) (o : dop str) : (headers * sdict) * re
   else ((h, d'), r).
 Definition mp_obs (st : headers * sdict) : list out :=
   let '(h, d) := st in [header_text h CONTENT_TYPE; OPairs h; OPairs d; out_os (mimetype_of h)].
+
+(* ================================================================== header_property pairs, over the regenerated table *)
+Inductive pval := PStr (s : str) | PInt (z : Z) | PList (l : list str).
+
+(* dump_func(value); None = the value does not fit the codec, or the codec is not modelled (dates: C16_date_assign_read,
+   enums: oracle only) *)
+Definition hp_dump (c : hcodec) (v : pval) : option str :=
+  match c, v with
+  | CStr, PStr s => Some s
+  | CInt, PInt z => Some (dec_of_Z z)
+  | CAge, PInt z => if (z <? 0)%Z then None else Some (dec_of_Z z)
+  | CSet, PList l => Some (dump_list l)
+  | _, _ => None
+  end.
+(* load_func(text); a ValueError / TypeError of the loader gives the default None *)
+Definition hp_load (c : hcodec) (s : str) : out :=
+  match c with
+  | CStr => OStr s
+  | CInt => match parse_dec s with Some z => OInt z | None => ONone end
+  | CAge => match s with
+            | [] => ONone
+            | _ => match parse_dec s with Some z => if (z <? 0)%Z then ONone else OInt z | None => ONone end
+            end
+  | CSet => OList (hs_headers (match s with [] => hs_init [] | _ => hs_init (parse_list_header s) end))
+  | _ => OErr TypeError
+  end.
+Definition hp_set (h : headers) (attr : str) (v : pval) : hstat :=
+  match prop_lookup attr header_props with
+  | None => (h, Some TypeError)
+  | Some (name, c) => match hp_dump c v with Some text => hd_set h name (VStr text) | None => (h, Some TypeError) end
+  end.
+Definition hp_get (h : headers) (attr : str) : out :=
+  match prop_lookup attr header_props with
+  | None => OErr TypeError
+  | Some (name, c) => match hd_get_key h name with None => ONone | Some s => hp_load c s end
+  end.
+Definition hp_del (h : headers) (attr : str) : headers :=
+  match prop_lookup attr header_props with None => h | Some (name, _) => hd_del_key h name end.
+Definition hp_text (h : headers) (attr : str) : out :=
+  match prop_lookup attr header_props with None => OErr TypeError | Some (name, _) => header_text h name end.
